@@ -266,6 +266,16 @@ def check_spec(spec, meta, tier, index):
                         obs['budget_runs'] += 1
                     if warned:
                         obs['warned_runs'] += 1
+                        if not run['budget']:
+                            # the specs are conditioned to spectral radius <= 0.9 (plain iteration needs a few hundred steps at
+                            # most, the idempotent semirings finitely many) and the values are far from where rounding could
+                            # keep the change above tol: with kmax = 5000 the stopping criterion has to be met, a method that
+                            # "exhausts its budget" here is not converging
+                            scale = float(exp.abs().max()) if (S not in ('bool',) and exp.numel() and torch.isfinite(exp).any()) else 0.0
+                            finite = exp[torch.isfinite(exp)] if S != 'bool' else exp
+                            scale = float(finite.abs().max()) if (S != 'bool' and finite.numel()) else 0.0
+                            if scale < 1e3:
+                                viols.append(C.viol(f'full-budget-exhausted:{S}:{method}', f'kmax={run["kmax"]} iterations were not enough on a grammar of spectral radius {cinfo.get("rho") if isinstance(cinfo, dict) else None}: warnings {out["warnings"][:1]}', context=ctx, trace=events[:3]))
                         continue          # an unconverged value is allowed once the caller has been warned
                     # (a) value
                     z = out['value']
